@@ -168,8 +168,6 @@ class InternalCompiler(Compiler):
         return dest
 
     def compile_or(self, qc, expr, dest=None) -> int:
-        # TODO: this won't work on len(expr.args) > 2
-
         # 1. Compile every argument
         erets = list(map(lambda e: self.compile_expr(qc, e), expr.args))
 
@@ -183,11 +181,20 @@ class InternalCompiler(Compiler):
 
         # . Perform the CX between all args and dest
         erets = list(set(erets))
-        for i in erets:
-            qc.cx(i, dest)
+        if len(erets) == 1:
+            # a | a = a (different symbols can be mapped to the same qubit)
+            qc.cx(erets[0], dest)
 
-        # 4. Perform the MCX between all args
-        qc.mcx(erets, dest)
+        # 4. a | b | c | ... = ((a | b) | c) | ...; partial results go on ancillas
+        acc = erets[0]
+        for i, eret in enumerate(erets[1:]):
+            d = dest if i == len(erets) - 2 else qc.get_free_ancilla()
+            qc.cx(acc, d)
+            qc.cx(eret, d)
+            qc.mcx([acc, eret], d)
+            if d != dest:
+                qc.mark_ancilla(d)
+            acc = d
 
         # 5. Mark ancilla every argument and return
         [qc.mark_ancilla(eret) for eret in erets]
